@@ -20,6 +20,7 @@
 // so the operation itself is a plain read-modify-write here.
 enum { NV_ADD, NV_SUB, NV_OR, NV_AND, NV_XOR, NV_NAND, NV_XCHG };
 static unsigned long long nvRmw(volatile void* p, int width, int op, unsigned long long operand, bool returnOld);
+static unsigned long nvOps;   // atomic read-modify-write operations executed so far (probe only)
 static unsigned long long nvCas(volatile void* p, int width, unsigned long long expected, unsigned long long desired, bool* ok);
 template<typename T> struct NvVal { static unsigned long long u(T v) { return (unsigned long long)v; } };
 template<typename T> struct NvVal<T*> { static unsigned long long u(T* v) { return (unsigned long long)(unsigned long)v; } };
@@ -910,6 +911,7 @@ static unsigned long long nvRmw(volatile void* p, int width, int op, unsigned lo
 {
   bool counter = isCounterOfPayload(p);
   bool point = running && self > 0 && counter;
+  ++nvOps;
   if(point)
     schedPoint();
   unsigned long long oldv = nvLoad(p, width), newv = oldv;
@@ -1050,6 +1052,29 @@ int main(int argc, char** argv)
         printf(" %lu", (unsigned long)cap);
       }
       printf("\n");
+    }
+    // capacity chosen by detach for the ONLY owner of a block that is too small: old capacity x requested minimum
+    for(usize old = 0; old <= 64; ++old)
+    {
+      printf("grow%lu", (unsigned long)old);
+      for(usize min = 0; min <= 64; ++min)
+      {
+        String x(old);
+        x.reserve(min);
+        printf(" %lu", (unsigned long)x.capacity());
+      }
+      printf("\n");
+    }
+    // policies of operator= that change the sequence of steps but not the property: the static empty String as source
+    // (static descriptor or an empty block), both handles already on the same counted block (no atomic operation or inc + dec)
+    {
+      String e, t("xy", 2);
+      t = e;
+      printf("assignEmptyStatic=%d\n", t.data == &String::emptyData ? 1 : 0);
+      String a("ab", 2), b(a);
+      unsigned long before = nvOps;
+      b = a;
+      printf("assignSameSkip=%d\n", nvOps == before ? 1 : 0);
     }
     curKind = -1;
     for(int i = 0; i < nrec; ++i)
